@@ -544,36 +544,15 @@ func (w *world) fusion(stepI int, opm map[string]any, o *obsRec, live map[int]bo
 			}
 			ks := []int{kFull, 1 + rot%2}
 			apis := []string{"VSearchGraph", "VSearch"}
-			// ---- hybrid, alpha in {0, 1/2, 1}
-			for ai, alpha := range []float64{0, 0.5, 1} {
+			// ---- hybrid: alpha in {0, 1/2, 1} and one more interior weight, every k
+			// Oracle for every k = the late-fusion rule of searchWithFusion (FusionPool / HybridOK of TextIdx.tla):
+			// pool = k nearest (allowed) documents + EVERY (allowed) candidate; score of a pool document =
+			// alpha/(1+d) [only among the k nearest] + (1-alpha)*bm25/max [only for a candidate, its OWN BM25, max over
+			// all allowed candidates]; the k best of the pool are returned with exactly that score.  For k >= |L| this
+			// is the documented formula on every live document.
+			extra := []float64{0.25, 0.75, 0.4}[(rot/3)%3]
+			for ai, alpha := range []float64{0, 0.5, 1, extra} {
 				for ki, k := range ks {
-					if ki == 1 && alpha == 0.5 {
-						// the formula needs every live document in the vector result (k >= |L|): the engine fuses the
-						// top-k of each side, so with a smaller k a document outside the vector top-k carries no
-						// vector term.  Not judged; measured (how often the result differs from the formula's top-k).
-						if k < len(L) && len(C) > 0 {
-							if hits, err := w.search("VSearch", qv, k, filter, text, alpha); err == nil {
-								w.res.HalfSmallK++
-								fz := map[int]float64{}
-								for d := range L {
-									ts := 0.0
-									if C[d] && maxbm > 0 {
-										ts = bm[d] / maxbm
-									}
-									fz[d] = alpha/(1+float64(vrk[d])) + (1-alpha)*ts
-								}
-								frk, _ := denseRank(nd, keys(L), fz, tolBM25)
-								res := make([]int, len(hits))
-								for i, hh := range hits {
-									res[i] = hh.d
-								}
-								if !topK(res, L, frk, k) {
-									w.res.HalfSmallKDiffers++
-								}
-							}
-						}
-						continue
-					}
 					api := apis[0]
 					if (ai+ki+rot)%4 == 3 {
 						api = apis[1]
@@ -589,59 +568,109 @@ func (w *world) fusion(stepI int, opm map[string]any, o *obsRec, live map[int]bo
 					for i, hh := range hits {
 						res[i] = hh.d
 					}
-					// expected fused score of every document of L
-					fused := map[int]float64{}
+					// the k nearest documents of L (distances are pairwise distinct)
+					near := keys(L)
+					sort.Slice(near, func(x, y int) bool { return vrk[near[x]] < vrk[near[y]] })
+					vecTop := map[int]bool{}
+					for i := 0; i < len(near) && i < k; i++ {
+						vecTop[near[i]] = true
+					}
+					pool := map[int]bool{}
+					rule := map[int]float64{}    // late-fusion score of the pool documents
+					formula := map[int]float64{} // alpha/(1+d) + (1-alpha)*bm25/max of every live document
 					for d := range L {
 						ts := 0.0
 						if C[d] && maxbm > 0 {
 							ts = bm[d] / maxbm
 						}
-						fused[d] = alpha/(1+float64(vrk[d])) + (1-alpha)*ts
+						formula[d] = alpha/(1+float64(vrk[d])) + (1-alpha)*ts
+						if vecTop[d] || C[d] {
+							pool[d] = true
+							rule[d] = (1 - alpha) * ts
+							if vecTop[d] {
+								rule[d] += alpha / (1 + float64(vrk[d]))
+							}
+						}
 					}
-					mode := map[float64]string{0: "alpha0", 1: "alpha1"}[alpha]
+					mode := "hybrid"
 					switch alpha {
 					case 0:
+						mode = "alpha0"
 						w.res.Alpha0++
 					case 1:
+						mode = "alpha1"
 						w.res.Alpha1++
 					default:
 						w.res.AlphaHalf++
-					}
-					if mode != "" {
-						ok := fusionOK(mode, res, L, C, vrk, trk, k)
-						w.keep(judged{Mode: mode, K: k, Res: plus1(res), L: oneBased(L), C: oneBased(C), Vrk: vrk, Trk: trk, OK: ok})
-						if !ok {
-							w.diverge(stepI, "fusion_"+mode, opm,
-								fmt.Sprintf("%s returned %s; live/allowed %s, candidates %s, squared distances %v, text ranks %v (BM25 %v)", desc, hitList(hits), names(w.p, L), names(w.p, C), vrk, trk, bm),
-								"deviation=order_"+mode, ints(o))
-							continue
-						}
-					} else {
-						// alpha = 1/2, complete regime: exactly L, ordered by the formula
-						frk, _ := denseRank(nd, keys(L), fused, tolBM25)
-						if !topK(res, L, frk, k) {
-							w.diverge(stepI, "fusion_half", opm,
-								fmt.Sprintf("%s returned %s; alpha*1/(1+d) + (1-alpha)*bm25/max = %v over %s", desc, hitList(hits), fused, names(w.p, L)),
-								"deviation=order_alpha_half", ints(o))
-							continue
+						if k < len(L) {
+							w.res.InteriorSmallK++
 						}
 					}
-					// scores (VSearchGraph): the formula, for the returned documents
-					if api == "VSearchGraph" && (k >= len(L) || alpha != 0.5) {
+					frk, ftie := denseRank(nd, keys(pool), rule, tolBM25)
+					if ftie && mode == "hybrid" {
+						w.res.Ties++
+					}
+					ok := fusionOK(mode, res, L, C, vrk, trk, frk, k)
+					w.keep(judged{Mode: mode, K: k, Res: plus1(res), L: oneBased(L), C: oneBased(C), Vrk: vrk, Trk: trk, Frk: frk, OK: ok})
+					if !ok {
+						dev := "deviation=order_" + mode
+						if mode == "hybrid" {
+							dev = "deviation=order_alpha_interior"
+							if k < len(L) {
+								dev = "deviation=order_alpha_interior_small_k"
+							}
+						}
+						w.diverge(stepI, "fusion_"+mode, opm,
+							fmt.Sprintf("%s returned %s; live/allowed %s, candidates %s, squared distances %v, BM25 %v (max %.12g), late-fusion pool %s with scores %v", desc, hitList(hits), names(w.p, L), names(w.p, C), vrk, bm, maxbm, names(w.p, pool), rule),
+							dev, ints(o))
+						continue
+					}
+					// scores (VSearchGraph): every returned document carries its own late-fusion score, in non-increasing order
+					if api == "VSearchGraph" {
 						fallback := len(C) == 0 // no text score at all: the engine may fall back to a plain vector search (unscaled similarity)
-						for _, hh := range hits {
-							want := fused[hh.d]
+						for i, hh := range hits {
+							want := rule[hh.d]
 							w.res.FusedScores++
+							if i > 0 && hits[i-1].score < hh.score {
+								w.diverge(stepI, "fusion_score", opm, fmt.Sprintf("%s returned %s: reported scores increase at position %d", desc, hitList(hits), i), "deviation=fused_order", ints(o))
+								break
+							}
 							if relClose(hh.score, want, tolBM25) {
 								continue
 							}
 							if fallback && relClose(hh.score, 1/(1+float64(vrk[hh.d])), tolBM25) {
 								continue
 							}
+							dev := "deviation=fused_score"
+							if C[hh.d] && relClose(hh.score, want-(1-alpha)*bm[hh.d]/maxbm, tolBM25) {
+								dev = "deviation=fused_score_text_term_dropped" // a candidate scored without its own BM25 term
+							}
 							w.diverge(stepI, "fusion_score", opm,
-								fmt.Sprintf("%s: score of %s = %.17g, alpha*1/(1+d) + (1-alpha)*bm25/max = %.17g (d=%d, bm25=%.17g, max=%.17g)", desc, hh.id, hh.score, want, vrk[hh.d], bm[hh.d], maxbm),
-								"deviation=fused_score", ints(o))
+								fmt.Sprintf("%s: score of %s = %.17g, alpha*1/(1+d)%s + (1-alpha)*bm25/max = %.17g (d=%d, bm25=%.17g, max=%.17g)", desc, hh.id, hh.score,
+									map[bool]string{true: "", false: " [not among the k nearest: no vector term]"}[vecTop[hh.d]], want, vrk[hh.d], bm[hh.d], maxbm),
+								dev, ints(o))
 							break
+						}
+					}
+					// the documented formula itself at small k (0 < alpha < 1): the pinned late fusion gives a candidate outside the
+					// k nearest no vector term.  Measured; a divergence only when the profile asks for the strict formula.
+					if mode == "hybrid" && k < len(L) && len(C) > 0 {
+						w.res.HalfSmallK++
+						zrk, _ := denseRank(nd, keys(L), formula, tolBM25)
+						differs := !topK(res, L, zrk, k)
+						for _, d := range res {
+							if !vecTop[d] {
+								w.res.NoVectorTerm++ // returned with a score that lacks alpha/(1+d)
+								break
+							}
+						}
+						if differs {
+							w.res.HalfSmallKDiffers++
+							if w.p.Strict {
+								w.diverge(stepI, "fusion_formula", opm,
+									fmt.Sprintf("%s returned %s; alpha/(1+d) + (1-alpha)*bm25/max over every live document = %v, k nearest %s", desc, hitList(hits), formula, names(w.p, vecTop)),
+									"deviation=vector_term_dropped_outside_vector_topk", ints(o))
+							}
 						}
 					}
 				}
@@ -665,8 +694,8 @@ func (w *world) fusion(stepI int, opm map[string]any, o *obsRec, live map[int]bo
 				for i, hh := range hits {
 					res[i] = hh.d
 				}
-				ok := fusionOK("textonly", res, L, C, vrk, trk, k)
-				w.keep(judged{Mode: "textonly", K: k, Res: plus1(res), L: oneBased(L), C: oneBased(C), Vrk: vrk, Trk: trk, OK: ok})
+				ok := fusionOK("textonly", res, L, C, vrk, trk, trk, k)
+				w.keep(judged{Mode: "textonly", K: k, Res: plus1(res), L: oneBased(L), C: oneBased(C), Vrk: vrk, Trk: trk, Frk: trk, OK: ok})
 				if !ok {
 					dev := "deviation=order_textonly"
 					if noPostings(o) && zq != nil && form == "explicit" && injective(res) && len(res) == minInt(k, len(L)) && subset(res, L) {
